@@ -28,6 +28,8 @@ type WOp struct {
 	Kind  string `json:"kind"` // reg close takeover req
 	Slot  int    `json:"slot"`
 	Route Route  `json:"route,omitempty"`
+	Host2 string `json:"host2,omitempty"` // reg: a second custom domain of the same proxy
+	Loc2  string `json:"loc2,omitempty"`  // reg: a second location of the same proxy (routes = domains x locations)
 	Host  string `json:"host,omitempty"`
 	Path  string `json:"path,omitempty"`
 	User  string `json:"user,omitempty"`
@@ -52,7 +54,21 @@ func genW(t *rapid.T) WCase {
 				r = routes[rapid.IntRange(0, len(routes)-1).Draw(t, "dupi")]
 			}
 			routes = append(routes, r)
-			c.Ops = append(c.Ops, WOp{Kind: "reg", Slot: rapid.IntRange(0, 1).Draw(t, "slot"), Route: r})
+			op := WOp{Kind: "reg", Slot: rapid.IntRange(0, 1).Draw(t, "slot"), Route: r}
+			// a proxy may own several routes: two custom domains and / or two locations
+			if rapid.IntRange(0, 2).Draw(t, "multi-host") == 0 {
+				if h2 := genRouteHost(t, "rh2"); !strings.EqualFold(h2, r.Host) {
+					op.Host2 = h2
+					routes = append(routes, Route{Host: h2, Location: r.Location, User: r.User})
+				}
+			}
+			if r.Location != "" && rapid.IntRange(0, 2).Draw(t, "multi-loc") == 0 {
+				if l2 := rapid.SampledFrom(locations).Draw(t, "loc2"); l2 != "" && l2 != r.Location {
+					op.Loc2 = l2
+					routes = append(routes, Route{Host: r.Host, Location: l2, User: r.User})
+				}
+			}
+			c.Ops = append(c.Ops, op)
 		case k == "close" || k == "takeover":
 			c.Ops = append(c.Ops, WOp{Kind: k, Slot: rapid.IntRange(0, 1).Draw(t, "slot"), Route: routes[rapid.IntRange(0, len(routes)-1).Draw(t, "ci")]})
 		default:
@@ -67,6 +83,25 @@ func genW(t *rapid.T) WCase {
 		}
 	}
 	return c
+}
+
+// opRoutes lists the (host, location, user) triples a registration asks for.
+func opRoutes(op WOp) []Route {
+	hosts := []string{op.Route.Host}
+	if op.Host2 != "" {
+		hosts = append(hosts, op.Host2)
+	}
+	locs := []string{op.Route.Location}
+	if op.Loc2 != "" {
+		locs = append(locs, op.Loc2)
+	}
+	var out []Route
+	for _, h := range hosts {
+		for _, l := range locs {
+			out = append(out, Route{Host: h, Location: l, User: op.Route.User})
+		}
+	}
+	return out
 }
 
 func runW(c WCase) error {
@@ -95,28 +130,43 @@ func runW(c WCase) error {
 	pname := map[string]string{}  // route key -> proxy name
 	pslot := map[string]int{}     // route key -> slot
 	nreg := 0
-	register := func(step int, slot int, r Route) error {
+	register := func(step int, slot int, op WOp) error {
 		nreg++
 		name := fmt.Sprintf("h%d", nreg)
+		rs := opRoutes(op)
+		r := op.Route
 		m := &msg.NewProxy{ProxyName: name, ProxyType: "http", CustomDomains: []string{r.Host}, RouteByHTTPUser: r.User}
+		if op.Host2 != "" {
+			m.CustomDomains = append(m.CustomDomains, op.Host2)
+		}
 		if r.Location != "" {
 			m.Locations = []string{r.Location}
+			if op.Loc2 != "" {
+				m.Locations = append(m.Locations, op.Loc2)
+			}
 		}
 		resp, e := scs[slot].NewProxy(m, 5*time.Second)
 		if e != nil {
 			return fmt.Errorf("step %d: no answer to registration: %v", step, e)
 		}
-		_, dup := table[r.key()]
+		dup := false
+		for _, x := range rs {
+			if _, d := table[x.key()]; d {
+				dup = true
+			}
+		}
 		if dup && resp.Error == "" {
-			return fmt.Errorf("step %d: route %+v duplicates a live (host, location, user) triple but was accepted", step, r)
+			return fmt.Errorf("step %d: registration %+v duplicates a live (host, location, user) triple but was accepted", step, rs)
 		}
 		if !dup && resp.Error != "" {
-			return fmt.Errorf("step %d: new route %+v refused: %s", step, r, resp.Error)
+			return fmt.Errorf("step %d: new routes %+v refused: %s", step, rs, resp.Error)
 		}
 		if !dup {
-			r.Owner = nreg
-			table[r.key()] = r
-			pname[r.key()], pslot[r.key()] = name, slot
+			for _, x := range rs {
+				x.Owner = nreg
+				table[x.key()] = x
+				pname[x.key()], pslot[x.key()] = name, slot
+			}
 		}
 		return nil
 	}
@@ -130,7 +180,13 @@ func runW(c WCase) error {
 		if e := scs[sl].Sync(3 * time.Second); e != nil {
 			return fmt.Errorf("step %d: session dead: %v", step, e)
 		}
-		delete(table, k)
+		// the proxy goes away with ALL its routes
+		name := pname[k]
+		for k2 := range table {
+			if pname[k2] == name && pslot[k2] == sl {
+				delete(table, k2)
+			}
+		}
 		return nil
 	}
 	// one persistent HTTP/1.1 user connection and one h2c connection, opened lazily
@@ -212,7 +268,7 @@ func runW(c WCase) error {
 	for i, op := range c.Ops {
 		switch op.Kind {
 		case "reg":
-			if e := register(i, op.Slot, op.Route); e != nil {
+			if e := register(i, op.Slot, op); e != nil {
 				return e
 			}
 		case "close":
@@ -223,7 +279,7 @@ func runW(c WCase) error {
 			if e := closeRoute(i, op.Route); e != nil {
 				return e
 			}
-			if e := register(i, op.Slot, op.Route); e != nil {
+			if e := register(i, op.Slot, WOp{Route: op.Route}); e != nil {
 				return e
 			}
 		case "req":
